@@ -1,5 +1,7 @@
 import Dashu.Driver.Loop
 import Dashu.Model.Cross.Ord
+import Dashu.Model.Cross.IntOrd
+import Dashu.Model.Cross.EstNoStd
 import Dashu.Model.Cross.Oracle
 import Dashu.Model.Cross.Hash
 import Dashu.Model.Cross.Mersenne
@@ -10,7 +12,12 @@ import Dashu.Model.Cross.Mersenne
   never materialises `B^e`) and — unless an operand is too large to materialise — ALSO with the
   `noFilter` oracle (exact path only) and against the specification (`XVal.cmp` of the exact
   values).  The three must agree (`!model-spec-mismatch` / `!model-oracle-dependence` otherwise;
-  by the theorems of `Props/C14` they always do).
+  by the theorems of `Props/C14` they always do).  Big-integer × big-integer comparisons (`Ord`,
+  `AbsOrd`, `AbsEq` of integer/src/cmp.rs) run through C05's mirrored word-level `cmp`
+  (`Model/Cross/IntOrd.lean`, the `…W` tables; equal to the value-level tables by `Props/C14Link`).
+  Every comparison is ALSO evaluated with a third oracle, `EstNoStd.noStdExactOracle`: the no_std table
+  estimators of integers and rationals (mirrored, exact arithmetic; sound by `Props/C14EstNoStd`) — a
+  different answer is `!model-oracle-dependence nostd=…`.
 -/
 namespace Dashu.Driver.Cross
 open Dashu.IO Dashu.Model.Cross Dashu.Driver
@@ -111,6 +118,10 @@ def verdict (m : String) (m2 spec : Option String) : String :=
     else if m2 != some m then ok m ++ " !model-oracle-dependence nofilter=" ++ (m2.getD "?") ++ " spec=" ++ s
     else ok m ++ " !model-spec-mismatch spec=" ++ s
 
+/-- third oracle (table path): must give the same answer as the bit-length oracle -/
+def withTable (m : String) (m3 : Option String) (line : String) : String :=
+  if m3 == some m then line else line ++ " !model-oracle-dependence nostd=" ++ (m3.getD "?")
+
 def feedStr (v : Int) : String :=
   let u : Nat := (if v < 0 then v + (2 : Int) ^ 128 else v).toNat
   bytesToStr ((List.range 16).map fun i => UInt8.ofNat ((u >>> (8 * i)) % 256))
@@ -121,28 +132,31 @@ def primSame (x y : Num) : Bool :=
   | .pfloat t1 _, .pfloat t2 _ => t1 == t2
   | _, _ => false
 
-def dispatch : Dispatch := fun _W op args =>
+def dispatch : Dispatch := fun W0 op args =>
+  let W := if W0 == 0 then 64 else W0
   match op, args with
   | "numcmp", [a, b] => do
     let x ← parseNum a; let y ← parseNum b
-    match numPartialCmp Oracle.coarse x y with
+    match numPartialCmpW W Oracle.coarse x y with
     | none => pure (ok "nopair")
     | some m =>
+      let m3 := (numPartialCmpW W (EstNoStd.noStdExactOracle W) x y).map optOrdStr
       if small x y then
-        let m2 := (numPartialCmp Oracle.noFilter x y).map optOrdStr
+        let m2 := (numPartialCmpW W Oracle.noFilter x y).map optOrdStr
         let spec := optOrdStr (XVal.cmp x.value y.value)
-        pure (verdict (optOrdStr m) m2 (some spec))
-      else pure (verdict (optOrdStr m) none none)
+        pure (withTable (optOrdStr m) m3 (verdict (optOrdStr m) m2 (some spec)))
+      else pure (withTable (optOrdStr m) m3 (verdict (optOrdStr m) none none))
   | "numeq", [a, b] => do
     let x ← parseNum a; let y ← parseNum b
-    match numEq Oracle.coarse x y with
+    match numEqW W Oracle.coarse x y with
     | none => pure (ok "nopair")
     | some m =>
+      let m3 := (numEqW W (EstNoStd.noStdExactOracle W) x y).map boolStr
       if small x y then
-        let m2 := (numEq Oracle.noFilter x y).map boolStr
+        let m2 := (numEqW W Oracle.noFilter x y).map boolStr
         let spec := boolStr (XVal.cmp x.value y.value == some .eq)
-        pure (verdict (boolStr m) m2 (some spec))
-      else pure (verdict (boolStr m) none none)
+        pure (withTable (boolStr m) m3 (verdict (boolStr m) m2 (some spec)))
+      else pure (withTable (boolStr m) m3 (verdict (boolStr m) none none))
   | "abscmp", [a, b] => do
     let x ← parseNum a; let y ← parseNum b
     if primSame x y then
@@ -155,14 +169,15 @@ def dispatch : Dispatch := fun _W op args =>
       | _, _ =>
         if spec == "none" then none else pure (ok spec)
     else
-    match absCmp Oracle.coarse x y with
+    match absCmpW W Oracle.coarse x y with
     | none => pure (ok "nopair")
     | some m =>
+      let m3 := (absCmpW W (EstNoStd.noStdExactOracle W) x y).map ordStr
       if small x y then
-        let m2 := (absCmp Oracle.noFilter x y).map ordStr
+        let m2 := (absCmpW W Oracle.noFilter x y).map ordStr
         let spec := optOrdStr (XVal.absCmp x.value y.value)
-        pure (verdict (ordStr m) m2 (some spec))
-      else pure (verdict (ordStr m) none none)
+        pure (withTable (ordStr m) m3 (verdict (ordStr m) m2 (some spec)))
+      else pure (withTable (ordStr m) m3 (verdict (ordStr m) none none))
   | "abseq", [a, b] => do
     let x ← parseNum a; let y ← parseNum b
     let spec := boolStr (XVal.absCmp x.value y.value == some .eq)
@@ -174,7 +189,14 @@ def dispatch : Dispatch := fun _W op args =>
       | _, _ => pure (ok spec)
     else
     match x, y with
-    | .ubig _, .ubig _ | .ubig _, .ibig _ | .ibig _, .ubig _ | .ibig _, .ibig _ => pure (ok spec)
+    | .ubig v, .ubig w =>
+      let m := boolStr (intAbsEqW W v w); pure (verdict m (some m) (some spec))
+    | .ubig v, .ibig w =>
+      let m := boolStr (intAbsEqW W v w); pure (verdict m (some m) (some spec))
+    | .ibig v, .ubig w =>
+      let m := boolStr (intAbsEqW W v w); pure (verdict m (some m) (some spec))
+    | .ibig v, .ibig w =>
+      let m := boolStr (intAbsEqW W v w); pure (verdict m (some m) (some spec))
     | .rbig n1 d1, .rbig n2 d2 =>
       -- `numerator.abs_eq && denominator ==` on canonical representations
       let m := boolStr (n1.natAbs == n2.natAbs && d1 == d2)
@@ -185,14 +207,15 @@ def dispatch : Dispatch := fun _W op args =>
     | _, _ => pure (ok "nopair")
   | "ordcmp", [a, b] => do
     let x ← parseNum a; let y ← parseNum b
-    match ordCmp Oracle.coarse x y with
+    match ordCmpW W Oracle.coarse x y with
     | none => pure (ok "nopair")
     | some m =>
+      let m3 := (ordCmpW W (EstNoStd.noStdExactOracle W) x y).map ordStr
       if small x y then
-        let m2 := (ordCmp Oracle.noFilter x y).map ordStr
+        let m2 := (ordCmpW W Oracle.noFilter x y).map ordStr
         let spec := optOrdStr (XVal.cmp x.value y.value)
-        pure (verdict (ordStr m) m2 (some spec))
-      else pure (verdict (ordStr m) none none)
+        pure (withTable (ordStr m) m3 (verdict (ordStr m) m2 (some spec)))
+      else pure (withTable (ordStr m) m3 (verdict (ordStr m) none none))
   | "numhash", [a] => do
     -- model: every FixedMersenneInt operation mirrored (`numHashFeedM`); spec: the arithmetic
     -- description `numHashFeed` (equal by `num_hash_mirrored`)
